@@ -546,6 +546,7 @@ func (sc *siteCollector) findTypeDef(name string) *hs.Type {
 
 func (sc *siteCollector) function(f *hs.Func, where string) {
 	cx := &fctx{fn: f, ret: sc.retOf(f.Ret)}
+	sc.annotations(f)
 	// parameters
 	for i := range f.Params {
 		i := i
@@ -855,6 +856,57 @@ func (sc *siteCollector) trigger(n *hs.Trigger, cx *fctx) {
 			sc.add(reftype.RArg, "trigger-argument-type", cx, []string{"type:" + kindName(at), "to:" + pe.name}, func() { n.Args[i] = pe.mk() })
 		}
 		sc.expr(&n.Args[i], cx)
+	}
+}
+
+// annotations: the trigger registration written on the callback itself
+func (sc *siteCollector) annotations(f *hs.Func) {
+	for ai := range f.Annots {
+		ai := ai
+		a := f.Annots[ai]
+		if a.Trig == nil {
+			sc.add(reftype.RTrigger, "annotation-unknown-identifier", nil, nil, func() { f.Annots[ai].Ident = "zz_" + a.Ident })
+			continue
+		}
+		n := a.Trig
+		sc.add(reftype.RTrigger, "annotation-trigger-unknown", nil, nil, func() { n.Event = "zz_notrigger" })
+		sc.add(reftype.RTrigger, "annotated-function-not-event", nil, nil, func() { f.Event = false })
+		sc.add(reftype.RTrigger, "annotated-function-pub-instead-of-event", nil, nil, func() { f.Event, f.Pub = false, true })
+		sc.add(reftype.RTrigger, "annotated-function-extra-parameter", nil, nil, func() { f.Params = append(f.Params, hs.P("zz_x", hs.TInt)) })
+		for i := range f.Params {
+			i := i
+			sc.add(reftype.RTrigger, "annotated-function-parameter-dropped", nil, nil, func() {
+				old := f.Params[i]
+				f.Params = append(f.Params[:i:i], f.Params[i+1:]...)
+				if lit := litOfType(sc.resolveWritten(old.T)); lit != nil {
+					f.Body.Stmts = append([]hs.Stmt{hs.LetT(old.Name, old.T, lit)}, f.Body.Stmts...)
+				}
+			})
+			for _, alt := range []*hs.Type{hs.TInt, hs.TStr, hs.TBool, hs.TList(hs.TInt)} {
+				alt := alt
+				if reftype.Equal(sc.resolveWritten(f.Params[i].T), alt) {
+					continue
+				}
+				sc.add(reftype.RTrigger, "annotated-function-parameter-type", nil, []string{"to:" + kindName(alt)}, func() { f.Params[i].T = alt })
+			}
+		}
+		if f.Ret == nil && f.Body.Tail == nil {
+			sc.add(reftype.RTrigger, "annotated-function-return-type", nil, nil, func() { f.Ret = hs.TInt; f.Body.Tail = hs.I(7) })
+		}
+		sc.add(reftype.RArity, "annotation-argument-added", nil, nil, func() { n.Args = append(n.Args, hs.I(7)) })
+		for i := range n.Args {
+			i := i
+			sc.add(reftype.RArity, "annotation-argument-dropped", nil, nil, func() { n.Args = append(n.Args[:i:i], n.Args[i+1:]...) })
+			at := sc.typeOf(n.Args[i])
+			for _, pe := range c03Palette {
+				pe := pe
+				if sameKindShape(pe.t, at) {
+					continue
+				}
+				sc.add(reftype.RArg, "annotation-argument-type", nil, []string{"type:" + kindName(at), "to:" + pe.name}, func() { n.Args[i] = pe.mk() })
+			}
+			sc.add(reftype.RUnknownIdent, "annotation-argument-unknown-identifier", nil, nil, func() { n.Args[i] = hs.V("zz_nothing") })
+		}
 	}
 }
 
